@@ -543,7 +543,10 @@ fn exec(op: &str, args: &[Sexp]) -> Ans {
 			let u = tr!(universe_from(u));
 			let rs = tr!(repos_from(rs));
 			let roots = tr!(roots_from(roots));
-			let Ok(v) = run_resolve(&u, &rs, &roots) else { return Ans::out_of_domain() };
+			// the specification decides the domain (audit rule (ii)): where it defines the list, an error of the implementation is a failure
+			let Ok(v) = run_resolve(&u, &rs, &roots) else {
+				return if reference_resolve(&u, &rs, &roots).is_ok() { Ans::fail("impl-error") } else { Ans::out_of_domain() }
+			};
 			// (name maven coord scope) of every resolved dependency, in order
 			let got: Vec<Sexp> = v.iter().map(|f| Sexp::list(tr_list(f)[..4].to_vec())).collect();
 			match reference_resolve(&u, &rs, &roots) {
